@@ -380,7 +380,8 @@ def main(argv):
             'index': index, 'digest': digest, 'trace': trace_digest,
             'again': digest2 == digest and trace_digest2 == trace_digest,
             'concurrent_steps': concurrent_steps, 'activations': sess.n,
-            'fifo': [v for v in sess.violations if v['mechanism'].startswith('kernel-')][:2],
+            'fifo': [v for v in sess.violations if v['mechanism'].startswith(
+                ('kernel-', 'c02:', 'c20:resumed-ahead-of-runnable'))][:2],
             'd15': any(v['mechanism'] == 'first-internal-cancelscope-hits-consumer'
                        for v in sess.violations),
         }
